@@ -58,7 +58,7 @@ timestamp = dict(
     name='TF.strftime', primary='C13', props={'C13'}, kind='L', funcs=[], enforce=None,
     desc='the real TimestampFormatter / StringFromTime (caches, pattern splitting, %r/%R/%T expansion, fractional digits) against strftime of the same instant, one formatter object per sequence of instants in any order - checks the tz AXIOM of the contract units against the real libc for five zones (offsets of 0, -4/-5 h, +5:30, +10:30/+11 with a 30 min DST step, +1/+2 h)',
     native=dict(cpp='timestamp.cpp', file='include/quill/backend/TimestampFormatter.h', function='TimestampFormatter::{TimestampFormatter,format_timestamp}, StringFromTime::{init,format_timestamp,_populate_pre_formatted_string_and_cached_indexes,_split_timestamp_format_once}', defs_quick=['LEN=2', 'TOK=2'], defs_thorough=['LEN=3', 'TOK=2']),
-    bounded=dict(bound='(20 fixed patterns + every pattern of <= 2 tokens from 18) x {GMT, local} x 5 process time zones x sequences of <= 2 (thorough: 3) instants from a 24-point grid incl. two DST switches', form='b'),
+    bounded=dict(bound='(23 fixed patterns + every pattern of <= 2 tokens from 20) x {GMT, local} x 5 process time zones x sequences of <= 2 (thorough: 3) instants from a 24-point grid incl. two DST switches', form='b'),
     dropped=[], trusted=['g++ / libstdc++ / libc strftime and the tz database of the image as the reference (the property names strftime)', 'the reference for %s is the epoch seconds of the instant (glibc strftime re-reads a gmtime tm as local time)'], min_obligations=1, timeout=1200)
 UNITS += [timestamp]
 codec_std = dict(
